@@ -42,15 +42,11 @@ def _torch_psd_sqrtm_backward_repeat(grad_output, ctx_tensor, repeat:int=1):
     sqrt_EVL,EVC = ctx_tensor
     EVCh = EVC.transpose(1,2).conj()
     ret = grad_output
-    if torch.any(sqrt_EVL==0).item():
-        ind_zero = torch.nonzero(sqrt_EVL==0)
-    else:
-        ind_zero = None
     for ind0 in range(repeat):
         tmp0 = sqrt_EVL.view(-1, 1, N0) + sqrt_EVL.view(-1, N0, 1)
         tmp1 = (EVCh @ ret @ EVC) / tmp0
-        if ind_zero is not None:
-            tmp1[ind_zero[:,0],ind_zero[:,1],ind_zero[:,1]] = 0
+        # 0/0 for every pair of zero eigenvalues (not only the diagonal), e.g. pure state in dim>=3
+        tmp1 = torch.where(tmp0==0, torch.zeros(1, dtype=tmp1.dtype, device=tmp1.device), tmp1)
         ret = (EVC @ tmp1 @ EVCh)
         if ind0!=repeat-1:
             sqrt_EVL = sqrt_EVL**2
